@@ -1,0 +1,28 @@
+//go:build verif
+
+package fasthttp
+
+// Thin pass-through wrappers around unexported functions, compiled only with -tags verif.
+// They exist for the verification harness under /verif and add no behaviour.
+
+// VerifByteClass returns the table-driven classification of c.
+func VerifByteClass(c byte) [8]int {
+	b2i := func(b bool) int {
+		if b {
+			return 1
+		}
+		return 0
+	}
+	return [8]int{
+		int(hex2intTable[c]), int(toLowerTable[c]), int(toUpperTable[c]),
+		b2i(quotedArgShouldEscapeTable[int(c)] != 0), b2i(quotedPathShouldEscapeTable[int(c)] != 0),
+		b2i(validHeaderFieldByte(c)), b2i(validHeaderValueByte(c)), b2i(validMethodValueByteTable[c] != 0),
+	}
+}
+
+// VerifNormalizeHeaderKey runs normalizeHeaderKey in place on a copy of b.
+func VerifNormalizeHeaderKey(b []byte, disableNormalizing bool) []byte {
+	c := append([]byte(nil), b...)
+	normalizeHeaderKey(c, disableNormalizing)
+	return c
+}
